@@ -956,7 +956,8 @@ func checkParserLines(p *Prog, l *Ledger) {
 			kinds[tn] = true
 			key := p.FuncKey(fn) + "#" + tn + ".Line"
 			d := describe(st.Val)
-			if prm, isParam := st.Val.(*ssa.Parameter); isParam && p.OnlyCalled(fn) {
+			if prm, isParam := st.Val.(*ssa.Parameter); isParam && (p.OnlyCalled(fn) || (fn.Parent() != nil && len(p.CallSites(fn)) > 0)) {
+				// (a function literal handed to a helper that calls it: the call graph knows the sites that call it)
 				// the line is handed in: what every caller hands in decides
 				idx := -1
 				for i, q := range fn.Params {
